@@ -96,6 +96,7 @@ async fn create_consumer_group(
             .await
             .with_error_context(|error| format!("{COMPONENT} (error: {error}) - failed to create consumer group, stream ID: {}, topic ID: {}, group ID: {:?}", stream_id, topic_id, command.group_id))?;
     let consumer_group = consumer_group.read().await;
+    command.group_id = Some(consumer_group.group_id);
     let consumer_group_details = mapper::map_consumer_group(&consumer_group).await;
     drop(consumer_group);
 
